@@ -47,6 +47,25 @@ def run(tier, seed):
                 if isinstance(v, str) and not v.isascii():
                     chk.violation(f"member {nm} holds non-ASCII text (no base64url) but the credential was accepted", f"{kind}-undecodable-accepted {nm}", rp)
                     break
+            # every binary member of an accepted credential is what CPython's lenient decoder makes of its text plus padding - `urlsafe_b64decode(text + "===")` -, also
+            # where '=' occurs INSIDE the text (the decoder stops at the first complete padding group) or the text carries other characters the decoder skips
+            import base64 as _b64
+            toks = il.split()
+            order = ["id", "rawId", "type", "clientDataJSON"] + (["authenticatorData", "signature", "userHandle"] if kind == "auth" else ["attestationObject"])
+            for idx_, nm in enumerate(order):
+                v = top.get(nm) if nm in ("id", "rawId", "type") else resp.get(nm)
+                if nm in ("id", "type") or not isinstance(v, str) or not v.isascii() or idx_ + 1 >= len(toks):
+                    continue
+                try:
+                    ref = fw.wb(_b64.urlsafe_b64decode(v + "==="))
+                except Exception:
+                    continue
+                got_ = toks[idx_ + 1]
+                if nm == "userHandle":          # (optional member: printed as 'Y <value>' / 'N')
+                    got_ = toks[idx_ + 2] if got_ == "Y" and idx_ + 2 < len(toks) else None
+                if got_ is not None and got_ != ref:
+                    chk.violation(f"member {nm} = {v[:40]!r} of an accepted credential was decoded to {got_[:40]} - not what the base64url decoder makes of that text ({ref[:40]})", f"{kind}-member-decoded-otherwise {nm}", dict(rp, member=nm, expected=ref))
+                    break
             # required members must be present under their OWN names
             need = ["id", "rawId", "response"]
             need_resp = ["clientDataJSON"] + (["authenticatorData", "signature"] if kind == "auth" else ["attestationObject"])
@@ -165,6 +184,14 @@ def run(tier, seed):
                         # Unicode white space / separators / format characters at the ENDS of an otherwise good value (what str.strip(), NFKC or a tolerant reader would drop)
                         "AQID\u00a0", "\u00a0AQID", "AQID\u0085", "AQID\u2028", "\u2029AQID", "AQID\u3000", "\u1680AQID", "AQID\u2003", "\u200bAQID", "AQID\ufeff", "\u2028", "\u00a0\u00a0", "AQID\u001c", "\u180eAQID"):
                 d = copy.deepcopy(base); (d if holder is None else d[holder])[nm] = bad
+                one(kind, d)
+                one(kind, json.dumps(d))
+    # 1d''. '=' INSIDE a member's text (values built from separately padded chunks, a stray '='), and other characters the lenient decoder skips: decoded as the decoder does
+    for kind, base in (("auth", {"id": "AQ", "rawId": "AQ", "type": "public-key", "response": {"clientDataJSON": "e30", "authenticatorData": "AAAA", "signature": "c2ln", "userHandle": "dWg"}}),
+                       ("reg", {"id": "AQ", "rawId": "AQ", "type": "public-key", "response": {"clientDataJSON": "e30", "attestationObject": "o2NmbXQ"}})):
+        for holder, nm in [(None, "rawId")] + [("response", k) for k in base["response"]]:
+            for odd in ("AQIDBA==BQYHCA==", "AAA=AAAA", "dQ==c2Vy", "AQ==AQ", "AQ==AQ==", "AA=A", "A=AA", "=AAA", "AQ=", "AQ=====", "AQID=", "AQ=ID", "A=Q=I=D=", "AQID====BQYH", "AQ==\nAQ==", "AQ== AQ", "AQ.ID", "AQ+ID", "AQ/ID", "AQ\tID", "AQ,ID", "e30=e30="):
+                d = copy.deepcopy(base); (d if holder is None else d[holder])[nm] = odd
                 one(kind, d)
                 one(kind, json.dumps(d))
     # 1d'. the dict form may be ANY dict - also a subclass that invents values for missing keys (defaultdict, a __missing__ method): a member that is not there is missing
